@@ -27,8 +27,9 @@ RULE = (
 ASSUMPTIONS = ["each single call from a fresh dataset is judged by C01/C04/C12/C13/C14"]
 
 ALPHABET = ["full", "mesh-only", "part-only", "sink-only", "varsubset", "value", "box", "levelcap", "cpulist",
-            "sortby", "part-off", "sortby-sink", "sortby-mesh", "levelcap-deeper", "levelband", "mesh-only-sortby-part"]
-NARROWING = {"levelcap-deeper", "levelband", "box", "levelcap", "cpulist", "value", "varsubset", "mesh-only", "part-only", "sink-only", "part-off"}
+            "sortby", "part-off", "sortby-sink", "sortby-mesh", "levelcap-deeper", "levelband", "mesh-only-sortby-part",
+            "levelcap-below-levelmin", "box-and-cap-below-levelmin"]
+NARROWING = {"levelcap-below-levelmin", "box-and-cap-below-levelmin", "levelcap-deeper", "levelband", "box", "levelcap", "cpulist", "value", "varsubset", "mesh-only", "part-only", "sink-only", "part-off"}
 
 
 def plan(tier):
@@ -98,6 +99,18 @@ def make_args(osy, name, model, rng):
         k = sp["levelmin"]
         p = {"var": "level", "op": "<=", "value": k}
         return {"select": {"mesh": sel.to_select(osy, [p])}}, f"select level <= {k}"
+    if name == "levelcap-below-levelmin":
+        k = max(sp["levelmin"] - 1, 1)
+        p = {"var": "level", "op": "<=", "value": k}
+        return {"select": {"mesh": sel.to_select(osy, [p])}}, f"select level <= {k}"
+    if name == "box-and-cap-below-levelmin":
+        k = max(sp["levelmin"] - 1, 1)
+        h = 0.5 ** sp["levelmax"]
+        c = 0.5 ** 3 + 0.5 ** 4
+        preds = [{"var": "position_" + ax, "op": "between", "value": [(c - 1.3 * h) * boxcm, (c + 1.3 * h) * boxcm],
+                  "unit": "cm"} for ax in "xyz"[:sp["ndim"]]]
+        preds.append({"var": "level", "op": "<=", "value": k})
+        return {"select": {"mesh": sel.to_select(osy, preds)}}, f"select box around {c} +- {1.3 * h} and level <= {k}"
     if name == "levelcap-deeper":
         # a deeper cap than "levelcap": after a shallower cap, the levels in between must come back
         k = min(sp["levelmin"] + 2, sp["levelmax"])
